@@ -13,11 +13,16 @@
 # (bytes of arrays, list contents, default-argument objects) snapshotted before / compared after; the call repeated;
 # the input re-presented Fortran-ordered, as a strided view of a larger array, with negative strides, and as int64
 # (integer-valued inputs below 2^20).  The judge (all results bit-identical /\ nothing mutated) lives in Coq.
+#
+# Refinement stream (kind = 'refine'): the public functions that no property C01-C19 models are run on generated inputs and judged
+# against the pure Gallina functions of coq/Model/Extras.v (harness/c20x.py builds, runs and emits these cases; Run/JudgeC20.v CRefine
+# delegates to Run/JudgeC20X.judge; theorems C20_refine_* in Props/C20.v).
 import copy, enum, importlib, inspect, pickle, struct, symtable, types
 import core
 from core import *
 import gen
 import linkfacts
+import c20x
 
 DIAG = {1: 'name', 2: 'attr', 3: 'arity', 4: 'import'}
 DIAG_TEXT = {0: 'resolves',
@@ -1013,14 +1018,15 @@ class C20:
             'CLink cases against CPython\'s own verdict; non-trivial = the reference is not resolved by the function\'s own locals, distinct by '
             '(module, scope, reference).  dynamic: public functions round-robin x generated curves (integer-valued and real) x enumerated configurations; '
             'each case = base call, repeated call, Fortran-ordered, strided view, negative-stride view, int64 (integer-valued inputs); non-trivial = the '
-            'function returned a value (no exception) on the base input; distinct by (function, input)')
+            'function returned a value (no exception) on the base input; distinct by (function, input).  refinement (kind = refine): ' + c20x.C20X.rule)
     assumptions = ['dynamic part: integer-valued inputs below 2^20 for the int64 re-presentation; exceptions are outputs (all re-presentations must raise the same type)',
                    'static part: use-before-assignment inside one function (UnboundLocalError) and attributes of run-time values (instances, arrays) are outside the model: '
                    'names bound anywhere in a function are local for the whole function; chains are followed only through modules, classes and ufuncs']
     trusted = ['translated, not hand-written: harness/linkfacts.py (Python ast -> Coq facts, fail-closed on unknown node kinds), validated on every run against CPython '
                '(symtable / getattr / inspect.signature) on the sampled references and against vars()/dir() of the imported package',
                'modelled: CPython name resolution (LEGB), attribute lookup in module / class / ufunc symbol tables (dir() of the installed objects), argument binding',
-               'dynamic part (purity / determinism / layout and dtype independence) is TESTED on generated inputs, not proved: level = partial for that half of the statement']
+               'dynamic part (purity / determinism / layout and dtype independence) is TESTED on generated inputs, not proved: level = partial for that half of the statement',
+               'refinement stream: ' + '; '.join(c20x.C20X.trusted)]
     timeout = 60.0
     shard = 120
     search_budget = 1
@@ -1030,6 +1036,7 @@ class C20:
         self.failing = []
         self.link_note = {}
         self.want_warmup = False
+        self.x = c20x.C20X()          # the refinement stream (public functions modelled in coq/Model/Extras.v)
 
     # ---------------------------------------------------------------- static part: the per-run theorem
     def waivers(self):
@@ -1231,6 +1238,12 @@ class C20:
             add(hot[2 + k % (len(hot) - 2)], 'layout', n=rng.choice([3, 4, 5, 7]), family=rng.choice(['uniform', 'convex']))
         for k in range(stress // 4):
             add(['rdp.rdp', 'rdp.rdp_fixed', 'rdp.grdp', 'rdp.mp_grdp'][k % 4], 'layout', n=rng.randint(5, 12), family='uniform')
+        # 7. refinement: the public functions that no property C01-C19 models, against the Gallina functions of Model/Extras.v (harness/c20x.py)
+        nrefine = 0
+        for xc in self.x.generate(rng, tier):
+            cases.append({'kind': 'refine', 'x': xc})
+            nrefine += 1
+        self.link_note['refine_cases_generated'] = nrefine
         # what was enumerated, for the evidence
         seen, missing, per_class = {}, [], {}
         for c in cases:
@@ -1295,6 +1308,9 @@ class C20:
 
     def on_timeout(self, c):
         c = dict(c)
+        if c.get('kind') == 'refine':      # the modelled functions are proved to terminate: a time-out is an output, not a skip
+            c['x'] = self.x.on_timeout(c['x'])
+            return c
         c['timeout'] = True
         return c
 
@@ -1320,6 +1336,9 @@ class C20:
         # dynamic
         if PKG_IMPORT_ERROR[0]:
             c['skip'] = 'package does not import'
+            return c
+        if c['kind'] == 'refine':
+            c['x'] = self.x.run_impl(c['x'])
             return c
         intv = is_intvals(c)
         c['intvals'] = intv
@@ -1350,6 +1369,8 @@ class C20:
             return 'CSkip'
         if c['kind'] == 'import':
             return 'CImport %s' % cbool(c['ok'])
+        if c['kind'] == 'refine':
+            return 'CRefine (%s)' % self.x.emit(c['x'])
         if c['kind'] == 'link':
             live = c.get('live')
             return '(CLink %s %s)%%string' % (linkfacts.cprogram_inline(c['ctx']), 'None' if live is None else '(Some %s)' % cbool(live))
@@ -1363,11 +1384,16 @@ class C20:
             return None if c.get('local_only') else ('link', c['module'], c['scope'], json.dumps(c['ref']))
         if c['kind'] == 'dyn':
             return None if c.get('raised') else ('dyn', c['fn'], json.dumps(c['points']), json.dumps(c['knees']))
+        if c['kind'] == 'refine':
+            k = self.x.nontrivial_key(c['x'])
+            return None if k is None else ('refine',) + tuple(k)
         return None
 
     def classify(self, c):
         if c.get('timeout'):
             return {'kind': 'timeout'}
+        if c['kind'] == 'refine':
+            return {**self.x.classify(c['x']), 'kind': 'refine'}
         if c['kind'] == 'link':
             return {'kind': 'link', 'link_ref_kind': c['ref'][0], 'link_live_verdict': c.get('live')}
         if c['kind'] == 'dyn':
@@ -1385,6 +1411,8 @@ class C20:
         return {'kind': c['kind']}
 
     def shrink(self, c):
+        if c['kind'] == 'refine':
+            return [{'kind': 'refine', 'x': d} for d in self.x.shrink(c['x'])]
         if c['kind'] != 'dyn':
             return []
         out = []
@@ -1400,6 +1428,8 @@ class C20:
             return {k: c[k] for k in ['kind', 'module', 'scope', 'line', 'ref', 'live', 'mirror'] if k in c}
         if c['kind'] == 'dyn':
             return {'kind': 'dyn', 'fn': c['fn'], 'points': c['points'], 'variants': [[t, u, len(r)] for t, u, r in c.get('runs', [])]}
+        if c['kind'] == 'refine':
+            return {**self.x.sample(c['x']), 'kind': 'refine'}
         return dict(c)
 
     def describe(self, c):
@@ -1409,6 +1439,8 @@ class C20:
                     (c['module'], os.path.join(SRC, c['module'].replace('.', '/') + '.py'), c['scope'], c['line'], show_ref(c['ref']), DIAG_TEXT.get(d, d)))
         if c['kind'] == 'import':
             return 'PYTHONPATH=%s python -c "import kneeliverse"  ->  %s' % (SRC, c.get('error'))
+        if c['kind'] == 'refine':
+            return '[refinement to coq/Model/Extras.v] ' + self.x.describe(c['x'])
         bad = ''
         runs = c.get('runs') or []
         excs = dict((t_, e_) for t_, e_ in (c.get('exc') or []))
